@@ -75,9 +75,24 @@ def attr_digests(model) -> dict:
     }
 
 
+def restricted_reaction(reaction):
+    """The same decay with a restricted helicity set of the initial state (the projection of smallest modulus removed):
+    a different reaction over the same particles and topologies."""
+    from qrules.transition import ReactionInfo
+
+    t0 = reaction.transitions[0]
+    init = next(iter(t0.topology.incoming_edge_ids))
+    projs = sorted({float(t.states[init].spin_projection) for t in reaction.transitions}, key=lambda v: (abs(v), v))
+    if len(projs) < 2:
+        return reaction
+    keep = [t for t in reaction.transitions if float(t.states[init].spin_projection) != projs[0]]
+    return ReactionInfo(transitions=keep, formalism=reaction.formalism)
+
+
 class World:
     def __init__(self, reaction):
         self.reaction = reaction
+        self.reaction_sub = restricted_reaction(reaction)
         self.names = resonance_names(reaction)
         self.builders = {}
         self.naming_defaults = {}
@@ -86,7 +101,8 @@ class World:
         import ampform
 
         if b not in self.builders:
-            self.builders[b] = ampform.get_builder(self.reaction)
+            # builder 3 works on the restricted reaction ("sub"), the others on the reaction as generated ("full")
+            self.builders[b] = ampform.get_builder(self.reaction_sub if b == 3 else self.reaction)
         return self.builders[b]
 
     def real_name(self, absname):
@@ -135,8 +151,10 @@ class World:
         return None
 
 
-def key_to_actions(key, b=1):
+def key_to_actions(key, b=None):
     cfg, choice, perm = key
+    if b is None:
+        b = 3 if cfg.get("rx") == "sub" else 1
     acts = [["SetAlign", b, cfg["align"]], ["SetStable", b, cfg["stable"]], ["SetScalar", b, cfg["scalar"]], ["SetCoup", b, cfg["coup"]]]
     if cfg.get("naming", "default") != "default":
         acts.append(["SetNaming", b, cfg["naming"]])
